@@ -72,6 +72,7 @@ REPORT_WX = {
     "wday":   ("2020-08-14", 1, TZ),
     "weast":  ("2020-01-01", 366, TZ_OTHER),
     "wgap":   ("2020-04-01", 61, TZ),
+    "wlong":  ("2020-01-01", 600, TZ),      # more than a year: every calendar day of the first months occurs twice
     "wdup":   ("2020-05-01", 45, TZ),       # some timestamps occur twice, the two rows carrying different temperatures; the first one has no usage       # weather feed with short gaps (hourly: 3 hours every 36; daily: every 11th day)
 }
 
